@@ -44,6 +44,7 @@ type Config struct {
 	Deadline     time.Time
 	KeepSamples  int
 	CrossCheck   string // second solver for assertion queries ("" = none)
+	CollectAll   bool   // keep the Observe log and witness inputs of every completed path
 }
 
 // Cex is a counterexample: an assertion (or panic) with a model of the inputs.
@@ -88,6 +89,7 @@ type Report struct {
 	SolverErrs  []string
 	CrossChecks int
 	CrossDiffs  []string
+	PathLogs    []PathSample // every completed path when Config.CollectAll
 	mu          sync.Mutex
 	problemSet  map[string]bool
 }
@@ -338,6 +340,9 @@ func (w *worker) runPath(item workItem) {
 		if os.Getenv("SYMGO_DEBUG") != "" {
 			fmt.Fprintf(os.Stderr, "[%s] %s: %s\n%s", x.cfg.Name, status, msg, stack)
 		}
+	}
+	if x.cfg.CollectAll && status == "ok" {
+		r.PathLogs = append(r.PathLogs, PathSample{Status: status, Decisions: len(pc.taken), Inputs: pc.inputModel(), Observed: in.Observed})
 	}
 	if len(r.Samples) < x.cfg.KeepSamples && (status == "ok" || status == "panic") {
 		r.Samples = append(r.Samples, PathSample{Status: status, Decisions: len(pc.taken), Inputs: pc.inputModel(), Observed: in.Observed})
